@@ -186,6 +186,9 @@ func cmdCheck(args []string) int {
 			j := &job{res: r, genS: time.Since(t1).Seconds()}
 			for _, o := range r.Obls {
 				if oblServes(o, prop) {
+					if *tier != "thorough" && hasTag(o.Tags, "slow") {
+						continue // clauses tagged slow are decided in the thorough tier only (longer solver budget)
+					}
 					j.obls = append(j.obls, o)
 				}
 			}
